@@ -504,23 +504,74 @@ func ruleNIter(w *World, r *Report) {
 				}
 			}
 			key := fnName(fn) + ":NodeIterator"
-			okq := false
-			if c, ok := resolve(qv).(*ssa.Call); ok && w.isCloneCall(c) {
-				if ld, ok := c.Call.Value.(*ssa.UnOp); ok {
-					if fa, ok := ld.X.(*ssa.FieldAddr); ok && structOfAddr(fa) == en && fa.Field == qidx && isRecv(fa.X) {
-						okq = true
+			// a value handed to an unexported constructor helper is judged at every
+			// place the helper is called from
+			var atCallers func(v ssa.Value, depth int, judge func(v ssa.Value, depth int) bool) bool
+			atCallers = func(v ssa.Value, depth int, judge func(v ssa.Value, depth int) bool) bool {
+				p, ok := resolve(v).(*ssa.Parameter)
+				if !ok || depth > 2 {
+					return false
+				}
+				h := p.Parent()
+				if h == nil || h.Parent() != nil || (h.Object() != nil && h.Object().Exported()) {
+					return false
+				}
+				idx := -1
+				for i, q := range h.Params {
+					if q == p {
+						idx = i
 					}
 				}
-			}
-			okn := false
-			if p, ok := resolve(nv).(*ssa.Parameter); ok && w.isNavType(p.Type()) {
-				okn = true
-			}
-			if cp, ok := resolve(nv).(*ssa.Call); ok && cp.Call.IsInvoke() && w.navMethodClass(cp.Call.Method.Name()) == "copy" {
-				if p, ok := resolve(cp.Call.Value).(*ssa.Parameter); ok && w.isNavType(p.Type()) {
-					okn = true
+				n := w.CG.Nodes[h]
+				if idx < 0 || n == nil || len(n.In) == 0 {
+					return false
 				}
+				for _, ed := range n.In {
+					if ed.Site == nil || ed.Site.Common().StaticCallee() != h || idx >= len(ed.Site.Common().Args) {
+						return false
+					}
+					if !judge(ed.Site.Common().Args[idx], depth+1) {
+						return false
+					}
+				}
+				return true
 			}
+			var judgeQ, judgeN func(v ssa.Value, depth int) bool
+			judgeQ = func(v ssa.Value, depth int) bool {
+				if c, ok := resolve(v).(*ssa.Call); ok && w.isCloneCall(c) {
+					if ld, ok := c.Call.Value.(*ssa.UnOp); ok {
+						if fa, ok := ld.X.(*ssa.FieldAddr); ok && structOfAddr(fa) == en && fa.Field == qidx && isRecv(fa.X) {
+							return true
+						}
+					}
+					// the clone taken inside the helper of a query handed in
+					if atCallers(c.Call.Value, depth, func(v2 ssa.Value, d int) bool {
+						if ld, ok := resolve(v2).(*ssa.UnOp); ok {
+							if fa, ok := ld.X.(*ssa.FieldAddr); ok && structOfAddr(fa) == en && fa.Field == qidx && isRecv(fa.X) {
+								return true
+							}
+						}
+						return false
+					}) {
+						return true
+					}
+				}
+				return atCallers(v, depth, judgeQ)
+			}
+			judgeN = func(v ssa.Value, depth int) bool {
+				if p, ok := resolve(v).(*ssa.Parameter); ok && w.isNavType(p.Type()) {
+					if h := p.Parent(); h != nil && h.Object() != nil && h.Object().Exported() {
+						return true
+					}
+					return atCallers(v, depth, judgeN)
+				}
+				if cp, ok := resolve(v).(*ssa.Call); ok && cp.Call.IsInvoke() && w.navMethodClass(cp.Call.Method.Name()) == "copy" {
+					return judgeN(cp.Call.Value, depth+1)
+				}
+				return false
+			}
+			okq := qv != nil && judgeQ(qv, 0)
+			okn := nv != nil && judgeN(nv, 0)
 			if okq && okn {
 				r.ok("N-ITER", key, w.instrPos(a), "query = expr.q.Clone(), node = the caller's navigator (or a copy of it)")
 			} else {
